@@ -1,6 +1,7 @@
 package main
 
 import (
+	"verif/harness/internal/c18"
 	"verif/harness/internal/c12"
 	"verif/harness/internal/c11"
 	"verif/harness/internal/c10"
@@ -10,6 +11,8 @@ import (
 )
 
 func init() {
+	checks["C18"] = c18.Run
+	workers["c18"] = c18.Worker
 	checks["C12"] = c12.Run
 	workers["c12"] = c12.Worker
 	checks["C11"] = c11.Run
